@@ -202,6 +202,9 @@ def correctTemperature : List (Particle α) → List α → List α → List α
       (v.take p.nc ++ [h] ++ (v.drop (p.nc + 1)).take 4)
         ++ correctTemperature ps hs (v.drop (p.nc + 5))
 
+/-- l.379-380 the value written into the heat slot: `np.sum(m) * nbe * cp * T` -/
+def newHeat (m : List α) (nbe cp T : α) : α := ((Num.sum m * nbe) * cp) * T
+
 /-- `correct_particle_tracking` (l.424-440) on the vector WITHOUT the 11 leading slots:
     the three position slots of every particle with `integrate = false` become `mark` (NaN). -/
 def correctParticleTracking (mark : α) : List (Particle α) → List α → List α
@@ -334,6 +337,20 @@ def parseShort : List Arg → Option (List (Particle Float))
     | none => none
   | _ => none
 
+/-- records for the corrections: `n:integrate n:issoluble n:nc v:m v:[nbe,cp,T]` per particle;
+    returns the particles and the heats `newHeat m nbe cp T` -/
+def parseCorr : List Arg → Option (List (Particle Float) × List Float)
+  | [] => some ([], [])
+  | .n integ :: .n sol :: .n nc :: .v m :: .v [nbe, cp, T] :: rest =>
+    match parseCorr rest with
+    | some (ps, hs) =>
+      some ({ integrate := integ != 0, issoluble := sol != 0, nc := nc, A := 0, nbe := nbe, rho_p := 0,
+              cp := cp, beta_T := 0, T := T, dtp := 0, up1 := 0, up2 := 0, qn := 0, qm := 0,
+              beta := [], Cs := [], k_bio := [], m := m, negdH := [], Mw := [] } :: ps,
+            newHeat m nbe cp T :: hs)
+    | none => none
+  | _ => none
+
 def parseObs : List Arg → Option (List (Obs Float))
   | [] => some []
   | .v [Jz0, Jz1, dr0, dr1, s, sPrev, z, D, sdMax] :: rest =>
@@ -361,13 +378,15 @@ def dispatch : Dispatch := fun name args =>
     match parseShort rest with
     | some ps => some [.s (compoundTotal c ps (q.drop 11)), .s (heatTotal ps q)]
     | none => none
-  -- Lmp.correct v:vector(full) v:newHeats mark [short particles] -> corrected full vector
-  | "Lmp.correct", .v q :: .v hs :: .s mark :: rest =>
-    match parseShort rest with
-    | some ps =>
+  -- Lmp.correct v:vector(full) mark [n:integrate n:issoluble n:nc v:m v:[nbe,cp,T]]* -> corrected full vector
+  | "Lmp.correct", .v q :: .s mark :: rest =>
+    match parseCorr rest with
+    | some (ps, hs) =>
       let body := correctParticleTracking mark ps (correctTemperature ps hs (q.drop 11))
       some [.v (q.take 11 ++ body)]
     | none => none
+  -- Lmp.exitFlag n:integrate n:p_fac_is_zero -> n:integrate'
+  | "Lmp.exitFlag", [.n integ, .n z] => some [.n (if exitFlag (integ != 0) (z != 0) then 1 else 0)]
   -- Lmp.calculate n:cap n:iterations-before-integrator-failure [v:obs per iteration]
   --   -> t:stopped|failed|fuel n:k n:top n:neutral n:reasons
   | "Lmp.calculate", .n cap :: .n nsucc :: rest =>
